@@ -62,6 +62,8 @@ def reviewedEarlyExitSites : List Site := [
   -- only on platforms with case-insensitive variable names (Windows); documented as indefinite there
   ("types/config.go", "ConfigDetails.LookupEnv", "return", "cd.Environment"),
   -- a slice of path parts
+  -- a slice from strings.Split, used as a bound on the number of rounds (C12's repair of ResolveSymbolicLink)
+  ("utils/pathutils.go", "ResolveSymbolicLink", "?return", "strings.Split(path, string(os.PathSeparator))"),
   ("utils/pathutils.go", "getSymbolinkLink", "?return", "parts"),
   ("validation/validation.go", "check", "return", "checks")]
 
@@ -79,10 +81,12 @@ def reviewedUntypedRangeSites : List Site := [
   ("dotenv/godotenv.go", "loadFile", "range", "rawEnv"),
   ("format/volume.go", "populateFieldFromBuffer", "range", "strings.Split(strBuffer, \",\")"),
   ("loader/reset.go", "ResetProcessor.resolveReset", "range", "node.Content"),
+  ("loader/reset.go", "checkAcyclic", "range", "node.Content"),   -- C01 round 2: the tree check before Decode; a yaml.Node's content is a slice
   ("schema/schema.go", "humanReadableType", "range", "allTypes"),
   ("template/template.go", "matchGroups", "range", "pattern.SubexpNames()[1:]"),
   ("template/variables.go", "extractVariable", "range", "matches"),
   ("types/types.go", "ParsePortConfig", "range", "ports"),
+  ("utils/pathutils.go", "ResolveSymbolicLink", "range", "strings.Split(path, string(os.PathSeparator))"),
   ("utils/pathutils.go", "getSymbolinkLink", "range", "parts")]
 
 /-- every package-level variable of the library.  Read-only after `init` unless listed in `reviewedGlobalWrites`:
